@@ -193,10 +193,10 @@ Proof.
   intros Hr HLC Hl Hm Hb0 Hb1 Ha1 Ha0.
   rewrite <- (lit_INR mn).
   refine (@cos2_laplacian_identity R ROps RFieldC L C a b x r i l mn Hr HLC Hl Hm Hb0 Hb1 Ha1 Ha0 _ _ _).
-  - rewrite !lit_INR. cbn -[INR]. rewrite S_INR. pose proof (pos_INR l). nra.
-  - rewrite !lit_INR. cbn -[INR]. destruct l as [|l']; [cbn; lra|].
-    rewrite S_INR. pose proof (pos_INR l'). nra.
-  - rewrite !lit_INR. cbn -[INR]. pose proof (pos_INR l). lra.
+  - cbn [lit]. rewrite !lit_INR. pose proof (pos_INR l) as P. cbn [fadd fmul fsub f0 f1 ROps]. nra.
+  - cbn [lit]. rewrite !lit_INR. cbn [fadd fmul fsub f0 f1 ROps].
+    destruct l as [|l']; [cbn; lra|]. rewrite S_INR. pose proof (pos_INR l'). nra.
+  - rewrite !lit_INR. pose proof (pos_INR l). cbn [fadd fmul fsub f0 f1 ROps]. lra.
 Qed.
 
 (** Non-vacuity (Qc): radius 7/3, l = 2 < L = 5 meets the hypotheses of [C02_lap_inverse]; a weight
@@ -208,11 +208,15 @@ Example C02_hyps_satisfiable :
   layout_ok false 7 /\ layout_ok true 8 /\ sym_rows false 7 w /\ sym_rows true 8 w /\
   laplacian 5 r (inverse_laplacian 5 r w) 3%nat 2%nat = w 3%nat 2%nat.
 Proof.
-  cbv zeta. repeat split.
+  cbv zeta. split; [|split; [|split; [|split; [|split; [|split; [|split]]]]]].
   - intro H; discriminate H.
   - intro H; vm_compute in H; discriminate H.
   - intro H; vm_compute in H; discriminate H.
-  - vm_compute. reflexivity.
+  - reflexivity.
+  - reflexivity.
+  - intros i l _ _. reflexivity.
+  - intros i l _ _. reflexivity.
+  - apply Qc_is_canon. vm_compute. reflexivity.
 Qed.
 
 (** Non-vacuity (R): square-root tables meet H_eps2 / H_b_shift of the cos^2 identity at
@@ -230,10 +234,10 @@ Example C02_cos2_hyps_satisfiable_R :
 Proof.
   set (a := fun (i l : nat) => sqrt (@a2_expr R ROps 1 (lit l) (lit 1))).
   exists a, (fun i l => a i (S l)).
-  assert (P2 : (0 < @a2_expr R ROps 1 (lit 2) (lit 1))%R).
-  { unfold a2_expr. cbn. apply Rdiv_lt_0_compat; lra. }
-  assert (P1 : (0 <= @a2_expr R ROps 1 (lit 1) (lit 1))%R).
-  { unfold a2_expr. cbn. apply Req_le. field. }
+  assert (E2 : @a2_expr R ROps (@f1 R ROps) (lit 2) (lit 1) = (1 / 5)%R) by (unfold a2_expr; cbn; field).
+  assert (E1 : @a2_expr R ROps (@f1 R ROps) (lit 1) (lit 1) = 0%R) by (unfold a2_expr; cbn; field).
+  assert (P2 : (0 < @a2_expr R ROps (@f1 R ROps) (lit 2) (lit 1))%R) by (rewrite E2; lra).
+  assert (P1 : (0 <= @a2_expr R ROps (@f1 R ROps) (lit 1) (lit 1))%R) by (rewrite E1; lra).
   assert (A2 : (a 0%nat 2%nat * a 0%nat 2%nat)%R = a2_expr 1 (lit 2) (lit 1)).
   { unfold a. apply sqrt_sqrt. lra. }
   assert (A1 : (a 0%nat 1%nat * a 0%nat 1%nat)%R = a2_expr 1 (lit 1) (lit 1)).
